@@ -16,7 +16,7 @@
    equals RFC 9106's B[i][j] recurrence; the model of that loop mirrors src/argon2.rs, reproduces
    both RFC 9106 test vectors by computation (below) and is run against the crate and libsodium
    by the check. *)
-From Dryoc Require Import Spec.Argon2 Impl.Argon2 Refine.Argon2 Refine.Argon2Safe.
+From Dryoc Require Import Spec.Argon2 Impl.Argon2 Gen.Kernels Refine.Argon2 Refine.Argon2Safe Refine.Argon2Gen.
 Import Argon2Impl.
 Open Scope Z_scope.
 
@@ -78,6 +78,17 @@ Proof. exact argon2_geometry. Qed.
 
 Theorem C09_geometry_kept : forall I pass lane slice, geom I -> geom (fill_segment I pass lane slice).
 Proof. exact fill_segment_geom. Qed.
+
+(* the permutation of the compression function as read from src/argon2.rs on this run -- the
+   statements of the g closure, the eight g calls of blake2_round_nomsg, the sixteen index
+   expressions of each loop of fill_block -- is the one the model runs *)
+Theorem C09_permutation_from_source : forall (prev_block ref_block next_block : block) (with_xor : bool),
+  (let block_r := xor_block ref_block prev_block in
+   let block_tmp := if with_xor then xor_block block_r next_block else block_r in
+   let block_r := fold_left round_gen argon2_row_indices block_r in
+   let block_r := fold_left round_gen argon2_col_indices block_r in
+   xor_block block_tmp block_r) = fill_block prev_block ref_block next_block with_xor.
+Proof. exact fill_block_gen. Qed.
 
 Theorem C09_verify_iff : forall stored salt hl ops mem alg pwd,
   verify stored salt hl ops mem alg pwd = Ok tt <-> hash_with_salt pwd salt hl ops mem alg = Ok stored.
